@@ -23,4 +23,13 @@ def atLeast (f a : String) (n : Nat) : Bool := decide (n ≤ (callsOf f).count a
 /-- every one of `as` is called before `b` -/
 def allBefore (f : String) (as : List String) (b : String) : Bool := as.all (fun a => before f a b)
 
+/-- calls made from inside `go` statements of `f` -/
+def goCallsOf (f : String) : List String :=
+  match Fdo.Gen.Facts.goCalls.find? (fun r => r.1 == f) with
+  | some r => r.2
+  | none => []
+
+/-- how often `a` is called outside any `go` statement of `f` -/
+def syncCount (f a : String) : Nat := (callsOf f).count a - (goCallsOf f).count a
+
 end Fdo.Facts
